@@ -901,4 +901,59 @@ def npFullBool (c : Bool) (shape : PV) : RV :=
 def npZerosBool (shape : PV) : RV := npFullBool false shape
 def npOnesBool (shape : PV) : RV := npFullBool true shape
 
+/-! ## objects handed in by the caller
+
+An object whose methods the translated code calls (the constraint filter of `find_vertices`) is represented
+by the TABLE of its answers: a `.dict` from the argument to the result. Which method is called does not
+matter for a one-method object; an argument outside the table is `PyErr.other`. -/
+def pyCallMethod (obj : PV) (_name : String) (args : List PV) : RV :=
+  match obj, args with
+  | .dict ks vs, [x] => match findIdxEq x ks 0 with
+                        | some j => .ok (vs.getD j .none)
+                        | Option.none => .error .other
+  | _, _ => .error .other
+
+/-! ## `numpy.union1d`, `itertools.combinations(…, 2)`, two-dimensional `zeros` -/
+
+/-- the integers of an array / list, one level of nesting flattened (`numpy.ravel` of what `union1d` receives). -/
+def flattenInts (v : PV) : Option (List Int) :=
+  let items : Option (List PV) := match v with
+    | .arr l => some l
+    | .list l => some l
+    | .tup l => some l
+    | _ => Option.none
+  match items with
+  | Option.none => Option.none
+  | some l => (l.mapM fun (x : PV) => match x with
+      | PV.arr r => r.mapM PV.asInt?
+      | PV.list r => r.mapM PV.asInt?
+      | y => (y.asInt?).map fun i => [i]).map List.flatten
+
+def insertInt (x : Int) : List Int → List Int
+  | [] => [x]
+  | y :: ys => if x < y then x :: y :: ys else if x = y then y :: ys else y :: insertInt x ys
+
+/-- `numpy.union1d(a, b)`: the sorted distinct values of both. -/
+def npUnion1d (a b : PV) : RV :=
+  match flattenInts a, flattenInts b with
+  | some xs, some ys => .ok (.arr (((xs ++ ys).foldl (fun acc x => insertInt x acc) []).map .int))
+  | _, _ => .error .other
+
+/-- all pairs `(x_i, x_j)` with `i < j`, in `itertools.combinations` order. -/
+def pairsOf : List PV → List PV
+  | [] => []
+  | x :: xs => (xs.map fun y => PV.tup [x, y]) ++ pairsOf xs
+
+def pyCombinations2 (v : PV) : RV :=
+  match pyIter v with
+  | .error e => .error e
+  | .ok l => .ok (.list (pairsOf l))
+
+/-- `numpy.zeros(shape=(n, m), dtype=int)`. -/
+def npZeros2 (n m : PV) : RV :=
+  match n.asInt?, m.asInt? with
+  | some n, some m => if n < 0 ∨ m < 0 then .error .valueError
+                      else .ok (.arr (List.replicate n.toNat (.arr (List.replicate m.toNat (.int 0)))))
+  | _, _ => .error .typeError
+
 end Dsw.Py
